@@ -108,6 +108,13 @@ class Baton:
 
     Choices beyond the end of the list default to 0 = "keep the running thread; if it has
     finished, the enabled thread with the lowest id".
+
+    The scheduling decision at a point is taken *by the thread that holds the baton*
+    (inside its trace hook, where tracing is off): if the decision is "continue", it
+    simply goes on; only a real switch costs a hand-over (open the other thread's gate,
+    park on one's own).  All other threads are parked on their gates meanwhile, so the
+    decision, the optional ``observe(step, next_thread)`` callback and every source line
+    of the traced files run strictly one at a time.
     """
 
     def __init__(self, bodies, choices, files, *, horizon=20000, timeout=120.0, observe=None):
@@ -118,15 +125,60 @@ class Baton:
         self.timeout = timeout
         self.observe = observe
         n = len(self.bodies)
-        # binary semaphores: the hand-over strictly alternates between the scheduler and
-        # one thread, so plain locks (C level, much cheaper than threading.Semaphore) do
-        self.sem = [_Gate() for _ in range(n)]
-        self.main = _Gate()
+        self.sem = [_Gate() for _ in range(n)]  # one gate per thread, closed
+        self.main = _Gate()  # opened when every thread is done (or on failure)
         self.done = [False] * n
         self.results: list = [None] * n
-        self.last_event = None
         self.abort = False
-        self.tracer_error: BaseException | None = None
+        self.error: BaseException | None = None
+        self.ex = Execution([], [], [], [], [], [])
+        self.cur = None  # nobody holds the baton yet: the first choice is never a preemption
+        self.step = 0
+
+    # -- the scheduler (runs in whichever thread holds the baton) -----------------
+    def _fail(self, exc: BaseException) -> None:
+        """Abandon the execution: every thread runs to its end without the baton."""
+        if self.error is None:
+            self.error = exc
+        self.abort = True
+        for gate in self.sem:
+            gate.release()
+        self.main.release()
+
+    def _dispatch(self, me) -> bool:
+        """Decide who runs the next step; True if ``me`` keeps the baton."""
+        n = len(self.bodies)
+        enabled = [i for i in range(n) if not self.done[i]]
+        if not enabled:
+            self.main.release()
+            return False
+        step = self.step
+        if step >= self.horizon:
+            last = self.ex.events[-1] if self.ex.events else None
+            self._fail(HorizonExceeded(f"step horizon {self.horizon} exceeded (last event {last})"))
+            return False
+        cur = self.cur
+        running = cur in enabled
+        order = ([cur] if running else []) + [i for i in enabled if i != cur]
+        c = self.given[step] if step < len(self.given) else 0
+        if c >= len(order):
+            msg = f"choice {c} at step {step} but only {len(order)} thread(s) enabled"
+            self._fail(ReplayDivergence(msg))
+            return False
+        nxt = order[c]
+        ex = self.ex
+        if self.observe is not None:
+            ex.observations.append(self.observe(step, nxt))
+        ex.points.append((len(order), running))
+        ex.choices.append(c)
+        ex.threads.append(nxt)
+        ex.preemptive.append(bool(running and nxt != cur))
+        self.cur = nxt
+        self.step = step + 1
+        if nxt == me:
+            return True
+        self.sem[nxt].release()
+        return False
 
     # -- thread side ----------------------------------------------------------
     def _make_tracer(self, tid):
@@ -136,15 +188,16 @@ class Baton:
             if event == "line" and not self.abort:
                 try:
                     code = frame.f_code
-                    self.last_event = (
+                    # the outcome of the step that gave this thread the baton:
+                    # it reached (and has not yet executed) this line
+                    self.ex.events.append((
                         tid, "line", os.path.basename(code.co_filename), code.co_name,
                         frame.f_lineno,
-                    )
-                    self.main.release()  # park *before* this line executes
-                    self.sem[tid].acquire()
+                    ))
+                    if not self._dispatch(tid):
+                        self.sem[tid].acquire()  # parked *before* this line executes
                 except BaseException as exc:  # noqa: BLE001  (must not leak into the library frame)
-                    self.tracer_error = exc
-                    self.abort = True
+                    self._fail(SchedulerError(f"trace hook failed: {exc!r}"))
             return local
 
         def glob(frame, event, arg):  # noqa: ARG001
@@ -166,19 +219,18 @@ class Baton:
                 finally:
                     sys.settrace(None)
         finally:
-            self.last_event = (tid, "done")
             self.done[tid] = True
-            self.main.release()
+            if self.abort:
+                if all(self.done):
+                    self.main.release()
+            else:
+                try:
+                    self.ex.events.append((tid, "done"))
+                    self._dispatch(tid)  # pass the baton on / wake the scheduler
+                except BaseException as exc:  # noqa: BLE001
+                    self._fail(SchedulerError(f"dispatch failed: {exc!r}"))
 
-    # -- scheduler side -------------------------------------------------------
-    def _abandon(self, threads):
-        """Let every thread run to its end without the baton (throw-away directory)."""
-        self.abort = True
-        for s in self.sem:
-            s.release()
-        for t in threads:
-            t.join(self.timeout)
-
+    # -- caller side ------------------------------------------------------------
     def run(self) -> Execution:
         n = len(self.bodies)
         threads = [
@@ -187,49 +239,27 @@ class Baton:
         ]
         for t in threads:
             t.start()
-        ex = Execution([], [], [], [], [], [])
-        cur = None  # nobody holds the baton yet: the first choice is never a preemption
-        step = 0
-        while not all(self.done):
-            enabled = [i for i in range(n) if not self.done[i]]
-            running = cur in enabled
-            order = ([cur] if running else []) + [i for i in enabled if i != cur]
-            c = self.given[step] if step < len(self.given) else 0
-            if c >= len(order):
-                self._abandon(threads)
-                msg = f"choice {c} at step {step} but only {len(order)} thread(s) enabled"
-                raise ReplayDivergence(msg)
-            nxt = order[c]
-            if self.observe is not None:
-                ex.observations.append(self.observe(step, nxt))
-            ex.points.append((len(order), running))
-            ex.choices.append(c)
-            ex.threads.append(nxt)
-            ex.preemptive.append(bool(running and nxt != cur))
-            cur = nxt
-            self.sem[cur].release()
-            if not self.main.acquire(timeout=self.timeout):
-                self.abort = True  # cannot join a blocked thread; it is a daemon
-                msg = (
-                    f"no enabled thread: thread {cur} did not reach a scheduling point within"
-                    f" {self.timeout}s after step {step} (last event {self.last_event})"
-                )
-                raise Deadlock(msg)
-            if self.tracer_error is not None:
-                self._abandon(threads)
-                msg = f"trace hook failed: {self.tracer_error!r}"
-                raise SchedulerError(msg)
-            ex.events.append(self.last_event)
-            step += 1
-            if step > self.horizon:
-                self._abandon(threads)
-                msg = f"step horizon {self.horizon} exceeded (last event {self.last_event})"
-                raise HorizonExceeded(msg)
+        try:
+            self._dispatch(None)
+        except BaseException as exc:  # noqa: BLE001
+            self._fail(SchedulerError(f"dispatch failed: {exc!r}"))
+        if not self.main.acquire(timeout=self.timeout):
+            self.abort = True  # a blocked thread cannot be joined; it is a daemon
+            last = self.ex.events[-1] if self.ex.events else None
+            msg = (
+                f"no enabled thread: thread {self.cur} holds the baton but reached neither a"
+                f" scheduling point nor its end within {self.timeout}s (step {self.step},"
+                f" last event {last})"
+            )
+            raise Deadlock(msg)
         for t in threads:
             t.join(self.timeout)
             if t.is_alive():
                 msg = f"thread {t.name} did not terminate"
                 raise Deadlock(msg)
+        if self.error is not None:
+            raise self.error
+        ex = self.ex
         ex.results = list(self.results)
         return ex
 
